@@ -1,3 +1,4 @@
 #!/bin/sh
-# dbg.sh File.v N : show the goals right before line N of coq/File.v
-cd /verif/coq && sed "$2s/.*/ Show. admit./" $1 > /tmp/D_$$.v && coqc -Q . Sbdf /tmp/D_$$.v 2>&1 | grep -v conda | head -${3:-60}; rm -f /tmp/D_$$.*
+# dbg.sh File.v N [lines]: show the goals right before line N of coq/File.v
+V=$(cd "$(dirname "$0")/.." && pwd)
+cd "$V/coq" && sed "$2s/.*/ Show. admit./" $1 > /tmp/D_$$.v && coqc -Q . Sbdf /tmp/D_$$.v 2>&1 | grep -v conda | head -${3:-60}; rm -f /tmp/D_$$.* /tmp/.D_$$.*
